@@ -390,7 +390,9 @@ func (m *Machine) eqTerm(t types.Type, x, y value) *Term {
 		if yv, ok := y.(*value); ok {
 			return m.tt.Bool(xv == yv)
 		}
-		panic(unsupported{"comparison of symbolic reference"})
+		return m.ptrEq(x, y)
+	case *PtrSet:
+		return m.ptrEq(x, y)
 	case *SymRef:
 		panic(unsupported{"comparison of symbolic reference"})
 	case *Map:
@@ -550,7 +552,9 @@ func (m *Machine) mergeVals(c *Term, a, b value) (value, bool) {
 		if bv, ok := b.(*value); ok && av == bv {
 			return av, true
 		}
-		return nil, false
+		return m.mergePtrs(c, a, b)
+	case *PtrSet:
+		return m.mergePtrs(c, a, b)
 	case []value:
 		bv, ok := b.([]value)
 		if !ok {
